@@ -27,6 +27,11 @@ package posix
 //@            || (called("posix.genObjVersionKey") && arg("posix.genObjVersionKey", 0) == result("backend.ParseCopySource", 1) && srcVersionId == result("backend.ParseCopySource", 2))) \
 //@        && (srcBucket == result("backend.ParseCopySource", 0) || called("posix.genObjVersionKey"))
 
+// ---- C08: ListParts orders and cuts the page only after every entry of the upload directory was looked at ----
+// (directory order is lexical, "10" before "2": a page taken before the numeric sort holds the wrong parts)
+//@ func (*Posix) ListParts
+//@   at-call sort.Slice {C08} [every-part-file-was-looked-at-before-the-page-is-cut] requires rangedone(ents)
+
 // ---- C10: retention overwrite rules ---------------------------------------------------
 // The retention attribute of an object version is (re)written only when none exists yet, or the
 // existing one is not COMPLIANCE and, if GOVERNANCE, the caller's bypass was granted. (The gateway
